@@ -243,7 +243,8 @@ def addUpvalue (index : UInt8) (isLocal : Bool) (functionId : Nat) : CM Nat := d
   match ups.findIdx? (fun u => u.2 == index && u.1 == isLocal) with
   | some i => return i
   | none =>
-    if ups.length ≥ 255 then throw (.panic "ArrayVec::push: upvalue capacity exceeded")
+    -- (repaired) `try_push`: a full `ArrayVec` is `TooManyUpvalues`, not a panic
+    if ups.length ≥ 255 then fail .tooManyUpvalues
     modify fun s => { s with upvalues := s.upvalues.set functionId (ups ++ [(isLocal, index)]) }
     return ups.length
 
